@@ -155,6 +155,10 @@ type mutantOutcome struct {
 
 // runMutants runs the mutants of one property in subprocesses and summarises.
 func runMutants(o *RunOpts, base *Report) (outcomes []mutantOutcome) {
+	return runMutantsLimit(o, base, 0)
+}
+
+func runMutantsLimit(o *RunOpts, base *Report, limit int) (outcomes []mutantOutcome) {
 	ms, err := loadMutants(o.VerifDir)
 	if err != nil {
 		base.Note("mutants.json unreadable: %v", err)
@@ -174,6 +178,9 @@ func runMutants(o *RunOpts, base *Report) (outcomes []mutantOutcome) {
 		if m.Property == o.Property {
 			mine = append(mine, m)
 		}
+	}
+	if limit > 0 && len(mine) > limit {
+		mine = mine[:limit]
 	}
 	outcomes = make([]mutantOutcome, len(mine))
 	sem := make(chan struct{}, 6)
